@@ -441,6 +441,13 @@ class DefaultOperatorResolver(OperatorResolver):
                     "`FormulaMaterializer` instance)."
                 )
 
+            # A variable read through attribute accesses (`y.values`) uses the
+            # column at its root, unless a column carries the dotted name itself.
+            used_variables |= {
+                variable.split(".", 1)[0]
+                for variable in used_variables
+                if variable not in available_variables
+            }
             unused_variables = available_variables - used_variables
 
             return OrderedSet(
